@@ -11,7 +11,7 @@ FRESH_ONLY = ["block", "scc"]
 
 class C03(Machine):
     ID = "C03"
-    FAMILY_WEIGHTS = {"sparse": 3, "dense": 1, "canal": 4, "modular": 4, "maa": 1, "cascade": 3, "degenerate": 1}
+    FAMILY_WEIGHTS = {"sparse": 3, "dense": 1, "canal": 4, "modular": 4, "maa": 1, "cascade": 3, "degenerate": 1, "inputs_mix": 2}
     NMAX = {"quick": 6, "thorough": 8}
 
     def gen_params(self, sc, rng):
